@@ -131,7 +131,11 @@ theorem restart_inv (s : Shard) : Inv (restart (crash s)) := by
 theorem restart_inv2 {s : Shard} (h2 : Inv2 s) : Inv2 (restart (crash s)) := by
   constructor
   · intro id hid
-    simp only [restart, crash] at hid
+    have hl : (restart (crash s)).live
+        = published (crash s) (sortNat (((crash s).segs.map (·.1)).eraseDups)) := by simp [restart]
+    rw [hl] at hid
+    have hid := published_sub hid
+    simp only [crash] at hid
     rw [mem_sortNat, List.mem_eraseDups, List.mem_map] at hid
     obtain ⟨p, hp, rfl⟩ := hid
     exact ⟨p, by simpa [restart, crash] using hp, rfl⟩
